@@ -32,6 +32,36 @@ CHECKS = {
             "Exhaustive where the domain is small, sampled for 32-128-bit sources and (quick tier) for U14 ordering pairs; oracle is independent arithmetic.",
             "Accepted numeral syntax is the one the property states (digits, optional leading '+'); conversion table hand-written.",
             "DESIGN.md 4/C05"),
+    "C06": (True,
+            "exhaustive enumeration of all argument tuples of the 19 named and 3 generic constructors for 4 implementations; boundary/dimension sweeps (thorough: full product) of the test_util shorthands; oracle = expected bytes by integer arithmetic + reference decoding; expected-panic oracle for wrong categories / out-of-range primitives",
+            "Exhaustive over the argument domains of the constructors for Raw, Structured and two foreign implementors; shorthands over complete per-dimension sweeps.",
+            "Trusts the literal MIDI 1.0 tables in refmodel.rs.",
+            "DESIGN.md 4/C06"),
+    "C07": (True,
+            "exhaustive enumeration of all 8388608 messages (encode into 4 implementations, decode from a fresh scanner), decoding after prior state (quick: 4 seed-chosen of 4097 states per message; thorough: all 4097 states x all messages of a channel = 2.1e9), proptest random 16-channel prefix histories; round-trip oracle",
+            "Exhaustive for encoding and decode-from-fresh; decode-from-any-reachable-single-channel-state exhaustive in the thorough tier, sampled in quick; multi-channel prefixes sampled.",
+            "Reachable per-channel states are the 4097 found by the C08 fixpoint.",
+            "DESIGN.md 4/C07"),
+    "C08": (True,
+            "bounded-exhaustive sequence generation (BFS over operation sequences with (scanner Debug, reference state) pruning to a fixpoint: covers histories of every length) + proptest random histories over the full 16-channel alphabet with shrinking; oracle = reference scanner written from the property statement",
+            "Fixpoint over the complete single-channel contributing alphabet in the thorough tier (4097 states x 8197 inputs), value-abstracted in quick; full-alphabet multi-channel histories sampled.",
+            "Pruning trusts that derived Debug prints the scanner's whole state.",
+            "DESIGN.md 4/C08"),
+    "C09": (True,
+            "exhaustive per-dimension sweeps + seeded uniform sampling of the 10^10 product (quick); the complete product in the thorough tier (1.7e10 fourteen-bit encodes, all seven-bit messages); arithmetic oracle for the expected Control Change sequence",
+            "Quick: every number, every value, every channel swept with the others at boundaries plus 2M random tuples; thorough: the full product for RawShortMessage and a 1/64 stride for the other implementations.",
+            "Controller assignment literals as stated in the property.",
+            "DESIGN.md 4/C09"),
+    "C10": (True,
+            "seeded generation over the (N)RPN message space x constructed prior scanner states and proptest random prior histories; running forms of k items; round-trip oracle (encoder output must decode to the original on its last message)",
+            "Sampled: 400k messages x prior states (quick), 10M (thorough); 30k random histories; 30k running forms.",
+            "Only the documented sequence forms are generated (LSB-first 14-bit, homogeneous running forms).",
+            "DESIGN.md 4/C10"),
+    "C11": (True,
+            "bounded-exhaustive sequence generation (BFS to a fixpoint on one and two channels over a value-abstracted alphabet) + proptest random histories over the full alphabet; oracle = reference scanner of history facts from the property statement",
+            "Fixpoint covers histories of every length over the abstract alphabet (128 states per channel, 16384 for two channels); full alphabet sampled.",
+            "Pruning trusts derived Debug; abstraction collapses values to {0,1,127}.",
+            "DESIGN.md 4/C11"),
 }
 
 ALL = ["C%02d" % i for i in range(1, 20)]
